@@ -250,12 +250,31 @@ func driveC09(o opts) error {
 			mv := map[string]val.Val{c.Name: v, other.Name: ov}
 			m2 := db.Make("T", uuid, mv)
 			info2, _ := db.Model.NewModelInfo(m2)
-			row2, err := mp.NewRow(info2)
+			explicit := g.Chance(0.4)
+			if explicit {
+				// half of these with default values, which explicit fields put into the row (e.g. ["set",[]])
+				if g.Chance(0.5) {
+					mv[c.Name] = c.Default()
+					m2 = db.Make("T", uuid, mv)
+					info2, _ = db.Model.NewModelInfo(m2)
+				}
+			}
+			var row2 ovsdb.Row
+			if explicit {
+				row2, err = mp.NewRow(info2, db.FieldPtr(m2, "T", c.Name), db.FieldPtr(m2, "T", other.Name))
+			} else {
+				row2, err = mp.NewRow(info2)
+			}
 			rowTerm := "[]"
 			if err == nil {
 				rowTerm = gobjTerm(syms, restrict(row2))[len("GObj "):]
 			}
-			w.Add(emit.Case{Term: fmt.Sprintf("CRow %s %s %d%%nat %s", colsTerm, nmTerm(mv), classOf(err), rowTerm),
+			caseHead := fmt.Sprintf("CRow %s %s", colsTerm, nmTerm(mv))
+			if explicit {
+				caseHead = fmt.Sprintf("CRowF %s %s [%d%%N; %d%%N]", colsTerm, nmTerm(mv), syms.ID(c.Name), syms.ID(other.Name))
+				w.Count("newrow:explicit fields")
+			}
+			w.Add(emit.Case{Term: fmt.Sprintf("%s %d%%nat %s", caseHead, classOf(err), rowTerm),
 				JSON: map[string]interface{}{"dir": "NewRow", "columns": []string{c.Name, other.Name}, "values": dyn.JSONRow(mv)}, Key: "R" + c.Name + other.Name + v.OrderedKey() + ov.OrderedKey(),
 				Nontrivial: true, Class: "newrow"})
 			if err == nil {
